@@ -75,6 +75,7 @@ class Ctx:
                 if not hasattr(self, "_baseline"):
                     self._baseline = json.load(open(base))
                 data = self._baseline
+        casegen.set_dictionary(self.data.get("tables", {}).get("dictionary"))
         return CaseGen(data["schemas"][cfg], (self.seed * 1000003 + int(cfg, 2) * 7919 + salt) & 0xFFFFFFFF)
 
 
@@ -359,6 +360,26 @@ def relevant_errors(pid, errors, baseline):
     return out
 
 
+def hard_errors(pid, rel, baseline):
+    """translation failures that the correspondence check cannot stand in for.  C18 is a universally quantified
+    negative over all strings / numbers ("every other string is rejected"): when the recognising table itself
+    cannot be read from the source (say, a lookup through a hash of the string), sampling inputs says nothing
+    about the sparse accepted set, so the property is no longer shown to hold and the check says so."""
+    if pid != "C18":
+        return []
+    out = []
+    for aspect, msg in rel:
+        if aspect in ("status", "bitflags", "*"):
+            out.append((aspect, msg))
+        elif aspect.startswith("type:") and baseline is not None:
+            key = aspect[5:]
+            for sj in baseline["schemas"].values():
+                if sj["types"].get(key, {}).get("leaf") in ("enumStr", "enumRepr"):
+                    out.append((aspect, msg))
+                    break
+    return out
+
+
 def match_known(known, pid, case):
     for f in known.get("findings", []):
         if f["property"] != pid:
@@ -384,7 +405,11 @@ def cases_c11(ctx, boost):
     payloads = ["-", "a201010201", "a2010102", "ff", "a0", rng.randbytes(8).hex(), rng.randbytes(40).hex()]
     if ctx.tier == "thorough":
         payloads += [rng.randbytes(n).hex() for n in (1, 2, 3, 5, 17, 64, 300)]
+    big = {n: rng.randbytes(n).hex() for n in (7607, 7608, 7609, 9000)}
     for cfg in ctx.cfgs(("000",)):
+        for b in (0x04, 0x07, 0x08, 0x0B, 0x09, 0x0D, 0x40, 0x42, 0x7F, 0x00, 0x03, 0x80, 0xFF):
+            for n, hxp in big.items():
+                out.append(Case("req", cfg, f"req {cfg} {b:02x}{hxp}", tag=f"byte + {n} payload bytes"))
         for b in range(256):
             out.append(Case("op", cfg, f"op {b}", tag="try_from/into"))
             out.append(Case("vop", cfg, f"vop {b}", tag="vendor try_from"))
@@ -406,7 +431,12 @@ def cases_c11(ctx, boost):
 # =============================================================================== C18
 def str_variants(rng, s):
     """edits of a valid spelling: case changes, single-character edits, prefixes, extensions"""
-    out = {s.upper(), s.lower(), s.swapcase(), s[:-1], s[1:], s + "a", s + "_", "x" + s, s + " ", " " + s, ""}
+    out = {s.upper(), s.lower(), s.swapcase(), s[:-1], s[1:], s + "a", s + "_", "x" + s, s + " ", " " + s, "",
+           s + s, s + "\x00", s.capitalize(), s.title()}
+    for k in range(1, len(s)):
+        out.add(s[:k] + s)              # a prefix repeated in front (`trim_start_matches`-style slips)
+        out.add(s + s[k:])              # a suffix repeated behind
+        out.add(s[:k] + s[:k] + s[k:])
     for i in range(len(s)):
         out.add(s[:i] + s[i + 1:])
         out.add(s[:i] + ("X" if s[i] != "X" else "Y") + s[i + 1:])
@@ -461,10 +491,34 @@ HARNESS_CAPS = sorted(set(list(range(1, 41)) + [48, 62, 63, 64, 65, 66, 100, 126
                                                 4094, 4095, 4096, 4097, 4098, 4400, 7609, 8192]))
 
 
-def resp_values(g, variant, key, n):
+_DEFVALS = {}
+
+
+def default_values(ctx, cfg):
+    """the `Default::default()` value of every response kind that has one, asked from the real crate"""
+    if cfg in _DEFVALS:
+        return _DEFVALS[cfg]
+    out = {}
+    try:
+        exe = ctx.pl.build_harness(cfg)
+        names = [v for v, p_ in ctx.data["schemas"][cfg]["variants"]["response_variants"] if p_]
+        if exe:
+            from pymodel import parse
+            for name, o in zip(names, run_harness(exe, [f"defval {n}" for n in names])):
+                if o.startswith("ok "):
+                    out[name] = parse(o[3:])
+    except Exception:
+        pass
+    _DEFVALS[cfg] = out
+    return out
+
+
+def resp_values(g, variant, key, n, ctx=None):
     """interesting response values for a variant: minimal, random, and large ones"""
     t = {"named": key}
     vals = [g.s.min_value(t)]
+    if ctx is not None and variant in default_values(ctx, g.cfg):
+        vals.append(default_values(ctx, g.cfg)[variant])
     for _ in range(n):
         v = g.rand_val(t, p_opt=g.rng.choice([0.0, 0.3, 0.7, 1.0]))
         if g.val_buildable(t, v):
@@ -481,10 +535,10 @@ def cases_c17(ctx, boost):
         for variant, payload in sj["variants"]["response_variants"]:
             if payload is None:
                 for cap in (1, 2, 3, 64, 7609):
-                    for prior in ("-", "ee" * min(cap, 5), "ee" * cap):
+                    for prior in ("-", "ee" * min(cap, 5), "ee" * cap, "7fa0"[:2 * min(cap, 2)], ("00a0a0" if cap >= 3 else "a0")):
                         out.append(Case("resp", cfg, f"resp {cfg} {variant} - {cap} {prior}", tag="empty kind"))
                 continue
-            vals = resp_values(g, variant, payload, 6 * boost)
+            vals = resp_values(g, variant, payload, 6 * boost, ctx)
             if variant == "LargeBlobs":
                 capn = g.s.res({"named": payload})["fields"][0]["ty"]["cap"]
                 for L in sorted({min(capn, x) for x in (0, 1, 23, 24, 59, 250, 1019, 2042, capn)}):
@@ -496,6 +550,8 @@ def cases_c17(ctx, boost):
                 caps |= {c for c in HARNESS_CAPS if size - 2 <= c <= size + 2}
                 for cap in sorted(caps):
                     priors = ["-", ("ee" * (cap // 2)) or "-", "ee" * cap] if cap <= 300 else ["-", "ee" * cap]
+                    if cap >= 2:
+                        priors.insert(1, "7fa0" + "a0" * min(cap - 2, 3))
                     for prior in priors[: (3 if cap <= size + 2 else 1)]:
                         out.append(Case("resp", cfg, f"resp {cfg} {variant} {show(v)} {cap} {prior}",
                                         tag="window" if abs(cap - size) <= 2 else "fixed cap"))
@@ -538,7 +594,7 @@ def cases_c07(ctx, boost):
         # credential id lengths across the capacity threshold, for several key lengths, aaguid 0/16/17
         idlens = list(range(0, 701)) if ctx.tier == "thorough" else \
             sorted(set(list(range(0, 40, 7)) + list(range(536, 546)) + list(range(600, 640)) + [255, 256, 300, 676, 700]))
-        for pklen in (0, 77, 256):
+        for pklen in (0, 77, 256, 257, 300, 600):
             for aal in (0, 16, 17):
                 for n in idlens:
                     if ctx.tier == "quick" and (aal != 16) and n % 5:
@@ -656,6 +712,28 @@ def cases_c09(ctx, boost):
     for cert in ([0, 1, 2, 255, 256, 257, 1022, 1023, 1024] if ctx.tier == "quick" else range(0, 1025, 3)):
         r = f"reg:5:{hx(rng.randbytes(65))}:{hx(rng.randbytes(64))}:{hx(rng.randbytes(cert))}:{hx(rng.randbytes(72))}"
         add(r, 1 + 65 + 1 + 64 + cert + 72, "register cert")
+    # realistic contents: certificates and signatures are DER — a SEQUENCE header whose announced length is shorter than,
+    # equal to and longer than what follows, in every length form (the serializer must copy them verbatim regardless)
+    def der(total, announced, form):
+        if form == 2:
+            hdr = bytes([0x30, 0x82, (announced >> 8) & 0xFF, announced & 0xFF])
+        elif form == 1:
+            hdr = bytes([0x30, 0x81, announced & 0xFF])
+        else:
+            hdr = bytes([0x30, announced & 0x7F])
+        body = rng.randbytes(max(total - len(hdr), 0))
+        return (hdr + body)[:total]
+    for total in (4, 5, 40, 300, 1024):
+        for form in (0, 1, 2):
+            hl = (2, 3, 4)[form]
+            for announced in sorted({0, 1, max(total - hl - 20, 0), max(total - hl - 1, 0), max(total - hl, 0), total - hl + 1, total, 0xFFFF}):
+                cert = der(total, announced, form)
+                r = f"reg:5:{hx(rng.randbytes(65))}:{hx(rng.randbytes(rng.choice([0, 64])))}:{hx(cert)}:{hx(der(rng.choice([8, 70, 72]), 68, 0))}"
+                out.append(Case("u2fs", "000", f"u2fs 1500 - {r}", tag="register DER cert", oracle_prefix=True))
+    for sig in range(0, 73):
+        for announced in sorted({0, max(sig - 3, 0), max(sig - 2, 0), sig, 70}):
+            r = f"auth:{rng.randrange(256)}:{rng.randrange(2 ** 32)}:{hx(der(sig, announced, 0))}"
+            out.append(Case("u2fs", "000", f"u2fs 128 - {r}", tag="authenticate DER signature", oracle_prefix=True))
     for count in (0, 1, 0xFF, 0x100, 0xFFFF, 0x10000, 0x01020304, 0xFFFFFF, 0x1000000, 0xFFFFFFFF):
         for sig in (0, 1, 35, 71, 72):
             r = f"auth:{rng.randrange(256)}:{count}:{hx(rng.randbytes(sig))}"
@@ -709,7 +787,7 @@ def cases_c10(ctx, boost):
     ver = build_apdu(0, 3, 0, 0, b"", None, False).hex()
     for apdu in [reg] + auths + [ver]:
         for entry in ("direct", "rpc"):
-            for f in ("-", "register", "authenticate", "version"):
+            for f in ["-", "version"] + [f"{m}:{k}" for m in ("register", "authenticate") for k in list(range(12)) + [rng.randrange(256) for _ in range(6)]]:
                 out.append(Case("call1", cfg, f"call1 {entry} {apdu} {f}", tag="ctap1"))
     return out
 
@@ -741,6 +819,18 @@ def cases_c14(ctx, boost):
             b = chead(4, n) + b"".join(entry(a, t) for a, t in combo)
             out.append(Case("dec", cfg, f"dec {cfg} {fkey} {b.hex()}", f"dec {cfg} {refs[fkey]} {b.hex()}", tag=f"params len {n}"))
     algs = [0, 1, -1, -7, -8, -9, -35, -36, -37, -257, -65535, 2 ** 31 - 1, -2 ** 31, 2 ** 31, -2 ** 31 - 1, 2 ** 32 - 7, -7 - 2 ** 32]
+    # every algorithm identifier of the COSE registry's dense range, and the integer literals of the source, both signs
+    dense = sorted(set(range(-300, 301)) | {s * d for d in casegen.DICT_INTS for s in (1, -1) if abs(d) < 2 ** 31})
+    for a in dense:
+        b = chead(4, 1) + entry(a, "public-key")
+        out.append(Case("dec", cfg, f"dec {cfg} {fkey} {b.hex()}", f"dec {cfg} {refs[fkey]} {b.hex()}", tag="params alg sweep"))
+    # near misses of the recognised format names (letter case, affixes): identifiers are case-sensitive
+    for base in ("packed", "none"):
+        for f in {base.upper(), base.capitalize(), base.swapcase(), base[:-1] + base[-1].upper(), base + " ", " " + base, base + "\x00",
+                  base[:-1], base + base[-1]}:
+            for lst in ([f], [f, base], [base, f], ["tpm", f]):
+                b = chead(4, len(lst)) + b"".join(ctext(x) for x in lst)
+                out.append(Case("dec", cfg, f"dec {cfg} {akey} {b.hex()}", f"dec {cfg} {refs[akey]} {b.hex()}", tag="formats near miss"))
     for a in algs:
         for ty in ("public-key", "public-kez", "", "p" * 32, "p" * 33, "Public-Key"):
             b = chead(4, 2) + entry(-8, "public-key") + entry(a, ty, order=rng.randrange(2), extra=rng.random() < 0.3)
@@ -799,6 +889,20 @@ def cases_c13(ctx, boost):
         def add(key, b, tag):
             out.append(Case("dec", cfg, f"dec {cfg} {key} {b.hex()}", f"dec {cfg} {refs[key]} {b.hex()}", tag=tag))
 
+        # fragments the code might treat specially (source literals + a built-in list), placed so that the
+        # longest fitting prefix ends with them, so that they straddle the cut, and at the end of a name that fits
+        for d in casegen.DICT_STRINGS:
+            db = d.encode()
+            if not db or len(db) > 20:
+                continue
+            for cap, mk in ((64, lambda x: (ukey, user(name=x))), (64, lambda x: (rkey, rp(name=x))),
+                            (64, lambda x: (ukey, user(display=x, name="n")))):
+                for s_ in ("a" * (cap - len(db)) + d + "zzz", "a" * (cap - len(db) + 1) + d + "z", "a" * 5 + d,
+                           d + "a" * 70, "a" * (cap - len(db)) + d):
+                    k_, b_ = mk(s_)
+                    add(k_, b_, "dictionary fragment at the cut")
+            for s_ in (d + "a" * 10, d + "é" * 70, "a" * (128 - len(db)) + d, d + "a" * 26 + "😀" * 30):
+                add(ukey, user(icon=s_), "dictionary fragment in icon")
         # every character-width pattern around the 64-byte cut, for every alignment
         plen = 4 if ctx.tier == "quick" else 6
         for pat in itertools.product((1, 2, 3, 4), repeat=plen):
@@ -908,6 +1012,27 @@ def request_messages(g, variant, key, n_random, subsets=True):
     for _ in range(n_random):
         v = g.rand_val(t, p_opt=rng.choice([0.2, 0.5, 0.9]))
         out.append(("random+lossy", casegen.enc_item(g.wire_item(t, v, lossy=0.4))))
+    # well-formed messages at and around the largest legal CTAP message (7609 bytes incl. the command byte),
+    # grown through a member of unbounded length
+    grow = [i for i, f in enumerate(r["fields"]) if g.s.res(f["ty"]).get("leaf") == "bytes" and g.s.res(f["ty"]).get("cap") is None
+            and f["rust"] in r["rust"]["pub_fields"]]
+    if grow:
+        i = grow[0]
+        base = g.s.min_value(t)
+
+        def build(L):
+            slots = list(base[1])
+            slots[i] = ('x', bytes([0x5a]) * L)
+            return casegen.enc_item(g.value_item(t, ('r', slots)))
+        for total in (7608, 7609, 7610, 8000):
+            L = max(0, total - 1 - len(build(0)))
+            for _ in range(4):
+                d = total - 1 - len(build(L))
+                if d == 0:
+                    break
+                L = max(0, L + d)
+            if len(build(L)) == total - 1:
+                out.append((f"total length {total}", build(L)))
     return out
 
 
@@ -959,8 +1084,36 @@ def bounded_sites(g, t, path=()):
     return out
 
 
-def item_at(g, t, item, path, fn):
-    """rebuild `item` (the wire item of a value of type t) with fn applied at `path`"""
+def saturate(g, t, item):
+    """`item` (the wire item of a value of type t) with every filtered list / format-preference list given a
+    saturating prefix: as many recognised entries as the list keeps, plus one unrecognised entry, BEFORE the
+    original entries — so that faults, limits and unknown members placed in the tail are still examined"""
+    r = g.s.res(t)
+    rng = g.rng
+    if "filtered" in r and item[0] == 'arr':
+        def mk(alg, ty):
+            return ('map', [(('text', b"alg"), casegen.int_item(alg)), (('text', b"type"), ('text', ty.encode()))])
+        pre = [mk(rng.choice(r["known"]), r["deLit"]) for _ in range(r["filtered"])]
+        pre.insert(rng.randint(0, len(pre)), mk(rng.choice([-257, -35, -65535]), r["deLit"]))
+        return ('arr', pre + (list(item[1]) or [mk(rng.choice(r["known"]), r["deLit"])]))
+    if r.get("leaf") == "attFmtPref" and item[0] == 'arr':
+        names = [d[0] for d in r["de"]]
+        pre = [('text', rng.choice(names).encode()) for _ in range(r["cap"])]
+        pre.insert(rng.randint(0, len(pre)), ('text', rng.choice([b"tpm", b"android-key", b"apple"])))
+        return ('arr', pre + (list(item[1]) or [('text', names[0].encode())]))
+    if "vec" in r and item[0] == 'arr':
+        return ('arr', [saturate(g, r["elem"], x) for x in item[1]])
+    if "fields" in r and item[0] == 'map':
+        byk = {}
+        for i, f in enumerate(r["fields"]):
+            byk[('u', r["indexed"] + i) if "indexed" in r else ('text', f["key"].encode())] = f
+        return ('map', [(k, saturate(g, byk[k]["ty"], v) if k in byk else v) for k, v in item[1]])
+    return item
+
+
+def item_at(g, t, item, path, fn, last=False):
+    """rebuild `item` (the wire item of a value of type t) with fn applied at `path`; inside lists the path
+    goes through the first entry, or the last one with last=True"""
     if not path:
         return fn(item)
     r = g.s.res(t)
@@ -968,6 +1121,9 @@ def item_at(g, t, item, path, fn):
     if "vec" in r or "filtered" in r:
         if item[0] != 'arr' or not item[1]:
             return None
+        if last:
+            sub = item_at(g, r["elem"], item[1][-1], path[1:], fn, last)
+            return None if sub is None else ('arr', item[1][:-1] + [sub])
         sub = item_at(g, r["elem"], item[1][0], path[1:], fn)
         return None if sub is None else ('arr', [sub] + item[1][1:])
     if "fields" in r:
@@ -976,7 +1132,7 @@ def item_at(g, t, item, path, fn):
         ents = list(item[1])
         for j, (k, v) in enumerate(ents):
             if k == key:
-                sub = item_at(g, f["ty"], v, path[1:], fn)
+                sub = item_at(g, f["ty"], v, path[1:], fn, last)
                 if sub is None:
                     return None
                 ents[j] = (k, sub)
@@ -1018,6 +1174,7 @@ def cases_c12(ctx, boost):
                             variants.append((f"cose x {n}", ('map', [(('u', 1), ('u', 2)), (('u', 3), ('neg', 24)), (('neg', 0), ('u', 1)),
                                                                      (('neg', 1), ('bytes', rng.randbytes(n))), (('neg', 2), ('bytes', rng.randbytes(32)))])))
                     done = 0
+                    sat = saturate(g, t, base)
                     for tag, new in variants:
                         it = item_at(g, t, base, path, lambda _old, new=new: new)
                         if it is None:
@@ -1025,6 +1182,12 @@ def cases_c12(ctx, boost):
                         done += 1
                         for cb in CMD_BYTE.get(variant, [])[:1]:
                             out.append(Case("req", cfg, f"req {cfg} {cb:02x}{casegen.enc_item(it).hex()}", tag=f"{variant} {tag}"))
+                        if sat != base:
+                            # the same limit in the LAST entry of a list whose kept part is already full
+                            it = item_at(g, t, sat, path, lambda _old, new=new: new, last=True)
+                            for cb in CMD_BYTE.get(variant, [])[:1]:
+                                if it is not None:
+                                    out.append(Case("req", cfg, f"req {cfg} {cb:02x}{casegen.enc_item(it).hex()}", tag=f"{variant} {tag} (tail entry)"))
                     if kind == "vec":
                         def grow(old, lim=lim):
                             return old
@@ -1104,6 +1267,29 @@ def cases_c06(ctx, boost):
                             it = item_at(g, t, base, hp, ins)
                             c = Case("req", cfg, f"req {cfg} {cb:02x}{casegen.enc_item_ext(it).hex()}", tag=f"{variant} extra at {'/'.join(map(str, hp))}")
                             c.same_as = plain
+                            out.append(c)
+                    # several unknown members at once; and the same in the LAST entry of a list whose kept part is full
+                    sat = saturate(g, t, base)
+                    plain_sat = Case("req", cfg, f"req {cfg} {cb:02x}{casegen.enc_item_ext(sat).hex()}", tag=f"{variant} plain (saturated lists)")
+                    if sat != base:
+                        out.append(plain_sat)
+                    for k in (2, 3):
+                        extras = [(('text', (rng.choice(names) + str(j)).encode()), g.rand_unknown_item(2)) for j in range(k)]
+
+                        def insk(old, extras=extras):
+                            ents = list(old[1])
+                            for e in extras:
+                                ents.insert(rng.randint(0, len(ents)), e)
+                            return ('map', ents)
+                        for b_item, pl, last in ((base, plain, False), (sat, plain_sat, True)):
+                            if last and sat == base:
+                                continue
+                            it = item_at(g, t, b_item, hp, insk, last=last)
+                            if it is None:
+                                continue
+                            c = Case("req", cfg, f"req {cfg} {cb:02x}{casegen.enc_item_ext(it).hex()}",
+                                     tag=f"{variant} {k} extras at {'/'.join(map(str, hp))}{' (tail entry)' if last else ''}")
+                            c.same_as = pl
                             out.append(c)
                     break
     return out
@@ -1186,6 +1372,9 @@ def cases_c05(ctx, boost):
             cb = CMD_BYTE[variant][0]
             seeds = [g.wire_item(t, g.rand_val(t, p_opt=1.0), lossy=0.0)] + \
                     [g.wire_item(t, g.rand_val(t, p_opt=0.4), lossy=0.0) for _ in range(boost)]
+            sat = saturate(g, t, seeds[0])
+            if sat != seeds[0]:
+                seeds.append(sat)       # faults behind a saturating prefix of list entries
             for seed in seeds:
                 def add(it, tag):
                     try:
@@ -1260,7 +1449,7 @@ def cases_c03(ctx, boost):
         for variant, payload in sj["variants"]["response_variants"]:
             if payload is None:
                 continue
-            for v in resp_values(g, variant, payload, 6 * boost):
+            for v in resp_values(g, variant, payload, 6 * boost, ctx):
                 c = Case("resp", cfg, f"resp {cfg} {variant} {show(v)} 8192 -", tag="whole response")
                 c.check_canon = "resp"
                 out.append(c)
@@ -1313,6 +1502,9 @@ def cases_c02(ctx, boost):
             t = {"named": payload}
             r = g.s.res(t)
             n = len(r["fields"])
+            if variant in default_values(ctx, cfg):
+                dvv = default_values(ctx, cfg)[variant]
+                out.append(Case("resp", cfg, f"resp {cfg} {variant} {show(dvv)} 8192 -", tag=f"{variant} Default::default()"))
             usable = [i for i, f in enumerate(r["fields"]) if f["rust"] in r["rust"]["pub_fields"]]
             optional = [i for i in usable if g.s.is_opt_field(r, r["fields"][i])]
             if len(optional) <= 12 and (ctx.tier == "thorough" or len(optional) <= 7):
@@ -1340,31 +1532,32 @@ def cases_c02(ctx, boost):
 
 
 # =============================================================================== C16
-def embed_val(sa, sb, ta, tb, v):
+def embed_val(sa, sb, ta, tb, v, drop=False):
     """the value `v` of type ta (schema sa) seen in schema sb: same members, new ones unset.
-    None when a member of ta that is set has no counterpart in tb."""
+    None when a member of ta that is set has no counterpart in tb — or, with drop=True, that member is
+    left out (the restriction of a value of the larger configuration to the members of the smaller one)."""
     if v is None:
         return None
     ra, rb = sa.res(ta), sb.res(tb)
     if "vec" in ra and "vec" in rb:
-        xs = [embed_val(sa, sb, ra["elem"], rb["elem"], x) for x in v[1]]
+        xs = [embed_val(sa, sb, ra["elem"], rb["elem"], x, drop) for x in v[1]]
         return None if any(x is None for x in xs) else ('l', xs)
     if "untagged" in ra and "untagged" in rb:
         if v[1] >= len(rb["untagged"]):
             return None
-        x = embed_val(sa, sb, ra["untagged"][v[1]]["ty"], rb["untagged"][v[1]]["ty"], v[2])
+        x = embed_val(sa, sb, ra["untagged"][v[1]]["ty"], rb["untagged"][v[1]]["ty"], v[2], drop)
         return None if x is None else ('v', v[1], x)
     if "fields" in ra and "fields" in rb:
         byname = {f["rust"]: (f, slot) for f, slot in zip(ra["fields"], v[1])}
         names_b = {f["rust"] for f in rb["fields"]}
         for n, (f, slot) in byname.items():
-            if slot is not None and n not in names_b:
+            if slot is not None and n not in names_b and not drop:
                 return None
         slots = []
         for fb in rb["fields"]:
             if fb["rust"] in byname and byname[fb["rust"]][1] is not None:
                 fa, slot = byname[fb["rust"]]
-                x = embed_val(sa, sb, fa["ty"], fb["ty"], slot)
+                x = embed_val(sa, sb, fa["ty"], fb["ty"], slot, drop)
                 if x is None:
                     return None
                 slots.append(x)
@@ -1435,6 +1628,16 @@ def cases_c16(ctx, boost):
                     continue
                 pair(Case("resp", a, f"resp {a} {variant} {show(v)} 8192 -", tag=f"resp {variant}"),
                      Case("resp", b, f"resp {b} {variant} {show(e)} 8192 -", tag=f"resp {variant}"))
+        # ---- `Default::default()` of each response kind: the larger configuration's default, restricted to the
+        #      members of the smaller one, is the smaller one's default (both rendered in the smaller configuration)
+        da, db = default_values(ctx, a), default_values(ctx, b)
+        for variant, payload in sja["variants"]["response_variants"]:
+            if payload and variant in vb and variant in da and variant in db:
+                ta, tb = {"named": payload}, {"named": vb[variant]}
+                w = embed_val(sb, sa, tb, ta, db[variant], drop=True)
+                if w is not None and ga.val_buildable(ta, da[variant]) and ga.val_buildable(ta, w):
+                    pair(Case("resp", a, f"resp {a} {variant} {show(da[variant])} 8192 -", tag=f"Default::default() of {variant} in {a}"),
+                         Case("resp", a, f"resp {a} {variant} {show(w)} 8192 -", tag=f"Default::default() of {variant} in {b}, restricted to the members of {a}"))
         # ---- authenticator data with extension outputs: identical bytes
         for fl in ("MC", "GA"):
             ta, tb = {"named": sa.roles["adExt" + fl]}, {"named": sb.roles["adExt" + fl]}
